@@ -284,9 +284,9 @@ func (t *SQLTable) ColNames() []string {
 }
 
 type SQLSchema struct {
-	Tables  map[string]*SQLTable
-	Dropped []string
-	Files   []string
+	Tables      map[string]*SQLTable
+	Dropped     []string
+	Files       []string
 	Destructive []string // statements in migrations that delete data from ledger tables
 }
 
